@@ -199,6 +199,24 @@ def catalogue(chk, deb, btcc, tap):
         for extra in (["0"], [], ["0", "--sig=" + "11" * 64]):
             sigarg = [a for a in extra if a.startswith("--")]
             cli("tap-tx-shapes", "tap", sigarg + ["--tx=" + tx_.hex(), "--txin=" + fund_.hex(), GKx.hex(), "1", "0x51"] + [a for a in extra if not a.startswith("--")], stdout_tty=True)
+    # ---- spent scripts / redeem scripts / witness scripts that cannot be decoded to their end: push lengths beyond the script, PUSHDATA4 with a
+    #      length of 2^31 and more (the sign bit of a 32-bit length), truncated length fields - as what a --tx/--txin spend has to list and run
+    import gen_limits
+    badscripts = [b"\x4e" + ln.to_bytes(4, "little") + b"\x01\x02\x03" for ln in (5, 0x7fffffff, 0x80000000, 0x80000001, 0xfffffffe, 0xffffffff)] + \
+                 [b"\x51\x4e\x00\x00\x00\x80", b"\x4d\xff\xff\x01", b"\x4c\xff", b"\x4e\x01\x00", b"\x4b\x01", b"\x51\x4d\x00"]
+    for bs in badscripts:
+        for shape in ("legacy", "p2sh", "p2wsh"):
+            if shape == "legacy": spk_b, sig_b, wit_b = bs, b"\x51", []
+            elif shape == "p2sh": spk_b, sig_b, wit_b = b"\xa9\x14" + gen_limits.hash160(bs) + b"\x87", G.push(bs), []
+            else: spk_b, sig_b, wit_b = b"\x00\x20" + btc.sha256(bs), b"", [b"\x01", bs]
+            fund_ = btc.Tx(version=2, vin=[btc.TxIn(bytes(32), 0, b"", 0xffffffff)], vout=[btc.TxOut(100000, spk_b)])
+            tx_ = btc.Tx(version=2, vin=[btc.TxIn(fund_.txid(), 0, sig_b, 0xfffffffd)], vout=[btc.TxOut(90000, b"\x00\x14" + bytes(20))])
+            tx_.witness = [wit_b]
+            cli("spent-script-undecodable", "btcdeb", ["--tx=" + tx_.hex(), "--txin=" + fund_.hex()])
+            repl("repl-spent-script-undecodable", ["-v", "--tx=" + tx_.hex(), "--txin=" + fund_.hex()], ["print", "step", "step"])
+            repl("repl-spent-script-undecodable", ["--tx=" + tx_.hex(), "--txin=" + fund_.hex()], ["print", "step", "step", "step", "print", "rewind", "stack"])
+        cli("spent-script-undecodable", "btcdeb", ["0x" + bs.hex()])
+        cli("spent-script-undecodable", "btcc", ["0x" + bs.hex()])
     # ---- tap: the funded output is not a taproot output although its program is the output key (witness v0 / v2 with the same 32 bytes, a
     #      bare push of it); script and spend arguments whose inline function throws
     for spk_alt in (b"\x00\x20" + q_, b"\x52\x20" + q_, b"\x20" + q_, b"\x51\x21" + q_ + b"\x00", b"\xa9\x14" + q_[:20] + b"\x87"):
